@@ -100,13 +100,18 @@ def generate(run_seed: int, cfg: Dict[str, Any]) -> Dict[str, Any]:
     huge = rk.random() < float(cfg.get("huge_rate", 0.004))
     for i in range(n_tables):
         nm = f"t{i}"
-        shape = rd.randrange(4)
+        shape = W.pick_shape(rd)
         nr = rd.choice([0, 1, 2, 3, 4, 5, 6, 8, 10])
         if huge and i == 0:
             nr = 35000  # more than 100 000 cells: beyond any "small frame" path
         tables[nm] = W.gen_table(rd, nm, n_rows=nr, shape=shape)
         # a second batch of data for the same table name (same columns): evaluations alternate between the two
-        tables_b[nm] = W.gen_table(rd, nm, n_rows=rd.choice([1, 2, 3, 5, 8]), shape=shape)
+        nb = rd.choice([1, 2, 3, 5, 8])
+        if "blocks" in tables[nm]:
+            tables_b[nm] = W.gen_block_table(rd, nm, n_rows=nb * len(tables[nm]["blocks"]["labels"]),
+                                             labels=tables[nm]["blocks"]["labels"])
+        else:
+            tables_b[nm] = W.gen_table(rd, nm, n_rows=nb, shape=shape)
     n_pipes = rk.choice([2, 3, 4, 6])
     pipes = []
     for _ in range(n_pipes):
